@@ -8,6 +8,10 @@ package api
 // Simulated: storage (the loader function: blocks until the scheduler delivers a block,
 // completes or fails it; follows the in-flight accounting protocol of the real loadPoints),
 // clock (bubble), the callers (3-6 client tasks, invalidator, reset, setLimits).
+// Hook points parked by the scheduler (no lock held at any of them): cache2.load.after_notify,
+// cache2.invalidate.before, cache2.invalidate.between_buckets, cache2.trim.before_reduce,
+// cache2.trim.before_aged. Runs that arm between_buckets (hooks bit 4) build shards with several
+// buckets, park invalidation passes half-way, trim/reset meanwhile and ask the buckets again.
 
 import (
 	"context"
